@@ -296,6 +296,30 @@ func (c *FCFG) posOf(n ast.Node) (cfgPos, bool) {
 	if p, ok := c.where[n]; ok {
 		return p, true
 	}
+	// compound statements are not CFG nodes themselves: use their header
+	switch s := n.(type) {
+	case *ast.RangeStmt:
+		return c.posOf(s.X)
+	case *ast.ForStmt:
+		if s.Init != nil {
+			return c.posOf(s.Init)
+		}
+		if s.Cond != nil {
+			return c.posOf(s.Cond)
+		}
+	case *ast.IfStmt:
+		if s.Init != nil {
+			return c.posOf(s.Init)
+		}
+		return c.posOf(s.Cond)
+	case *ast.SwitchStmt:
+		if s.Init != nil {
+			return c.posOf(s.Init)
+		}
+		if s.Tag != nil {
+			return c.posOf(s.Tag)
+		}
+	}
 	// find smallest enclosing registered node
 	var best ast.Node
 	var bp cfgPos
